@@ -988,6 +988,53 @@ pub fn generate(r: &mut Rng, _opts: &BTreeMap<String, String>, sess: &mut Sessio
     let (line, _model) = gen_prog(r, ct, vt, out);
     exec_line(sess, &line, out);
 
+    // 1b. delta columns: sawtooth data — equal-step COUNTDOWNS (repeat runs of one negative delta) separated by
+    //     jumps, built through the edit path in pieces so that slab cuts and merges land at and inside
+    //     countdowns — then value / range lookups for the heads and the members of the countdowns
+    if r.chance(1, 4) {
+        let vt = *r.pick(&["u32", "u64", "i32", "i64", "usize", "ou64", "oi64"]);
+        out.count("delta_sawtooth");
+        let signed = vt.contains("i3") || vt.contains("i6");
+        let mut toks: Vec<String> = vec![];
+        let mut model: Vec<i128> = vec![];
+        let teeth = r.range(8, 60);
+        let mut piece: Vec<String> = vec![];
+        // overall trend of the heads: random, falling (a slab's first countdown then carries the slab maximum) or rising
+        let trend = r.below(3);
+        if trend == 1 { out.count("delta_sawtooth_falling"); }
+        for t in 0..teeth {
+            let step = r.range(1, 3) as i128;
+            let k = r.range(2, 7) as i128;
+            let head: i128 = match trend {
+                1 => (k * step) + (teeth as i128 - t as i128) * 40 + r.below(10) as i128 + if signed { -300 } else { 0 },
+                2 => (k * step) + t as i128 * 40 + r.below(10) as i128,
+                _ => if signed && r.chance(1, 3) { -(r.below(40) as i128) } else { (k * step) + r.below(5000) as i128 },
+            };
+            let head = if signed { head } else { head.max(k * step) };
+            for j in 0..k { let v = head - j * step; piece.push(v.to_string()); model.push(v); }
+            if trend == 0 && r.chance(1, 4) { for _ in 0..r.range(1, 4) { let v = if signed { r.below(200) as i128 - 100 } else { r.below(200) as i128 }; piece.push(v.to_string()); model.push(v); } }
+            if vt.starts_with('o') && r.chance(1, 6) { piece.push("n".into()); model.push(i128::MIN); }
+            if r.chance(1, 3) || t + 1 == teeth {
+                let at = model.len() - piece.len();
+                if piece.len() == 1 && r.chance(1, 2) { toks.push(format!("p:{}", piece[0])); } else { toks.push(format!("s:{}:0:{}", at, join(&piece))); }
+                piece.clear();
+            }
+        }
+        let present: Vec<i128> = model.iter().cloned().filter(|v| *v != i128::MIN).collect();
+        // every distinct value is looked up (a pruned slab hides only the few values above its wrong maximum)
+        let mut distinct: Vec<i128> = present.clone(); distinct.sort(); distinct.dedup();
+        for (qi, v) in distinct.iter().enumerate() {
+            if distinct.len() > 450 && qi % 2 == 1 { continue; }
+            toks.push(format!("fv:{}", v));
+            if r.chance(1, 8) { toks.push(format!("fr:{}:{}", v, v + r.range(1, 4) as i128)); }
+        }
+        // an edit in the middle (slab surgery), then the lookups again
+        if model.len() > 4 { let i = r.below(model.len() as u64 - 2) as usize; toks.push(format!("r:{}", i)); let rm = model.remove(i); let _ = rm; }
+        let present: Vec<i128> = model.iter().cloned().filter(|v| *v != i128::MIN).collect();
+        for _ in 0..r.range(4, 10) { if present.is_empty() { break; } toks.push(format!("fv:{}", present[r.below(present.len() as u64) as usize])); }
+        exec_line(sess, &format!("hexane.prog delta {} {}", vt, toks.join(" ")), out);
+    }
+
     // 2. load of valid bytes (built by the real encoder from a generated batch), of mutations of
     //    them, and of the same bytes as a different column kind
     let (ct2, vt2) = *r.pick(KINDS);
